@@ -329,6 +329,7 @@ def run_case_files(prop: str, ty: str, imports: str, preds: dict[str, str],
                    tag: str = "cases", extra_defs: str = "") -> dict[str, list[int]]:
     """cases[i] is a Coq term of type `ty`.  preds maps a label to a Coq function
     `ty -> bool`.  Returns label -> indices of cases where the predicate is false."""
+    ensure_built(imports)
     d = BUILD / "cases" / prop / tag
     if d.exists():
         shutil.rmtree(d)
@@ -363,6 +364,18 @@ def run_case_files(prop: str, ty: str, imports: str, preds: dict[str, str],
             f.with_suffix(ext).unlink(missing_ok=True)
         (f.parent / ("." + f.stem + ".aux")).unlink(missing_ok=True)
     return res
+
+
+def ensure_built(imports: str) -> None:
+    """make the .vo of every Annet module named in an import header (they may be stale)."""
+    targets = []
+    for m in re.finditer(r"From\s+Annet\s+Require\s+Import\s+(.*?)\.(?:\s|$)", imports, flags=re.S):
+        for mod in m.group(1).split():
+            targets.append(mod.replace(".", "/") + ".vo")
+    if targets:
+        p = make(sorted(set(targets)))
+        if p.returncode != 0:
+            raise CheckFailure("building case-file dependencies failed:\n" + (p.stdout + p.stderr)[-3000:])
 
 
 def coq_eval(prop: str, imports: str, exprs: list[str], *, timeout: int = 600, tag="eval") -> list[str]:
